@@ -11,6 +11,8 @@
 import json, os, re, shutil, subprocess, sys, time
 
 ENV = dict(os.environ, CARGO_NET_OFFLINE="true", CARGO_TERM_COLOR="never")
+# extra cargo flags for the demonstration only (e.g. --no-default-features for C19 seeds)
+DEMO_FLAGS = os.environ.get("SEED_DEMO_FLAGS", "").split()
 
 
 def sh(cmd, cwd=None, timeout=3600):
@@ -52,7 +54,7 @@ def main():
         if f.startswith("seeded_demo"):
             os.remove(os.path.join(wt, "tests", f))
     shutil.copy(demo, os.path.join(wt, "tests", "seeded_demo_tmp.rs"))
-    rc, out = sh(["cargo", "test", "--offline", "--test", "seeded_demo_tmp"], cwd=wt)
+    rc, out = sh(["cargo", "test", "--offline", "--test", "seeded_demo_tmp"] + DEMO_FLAGS, cwd=wt)
     meta["demo_passes_without_patch"] = rc == 0
     meta["ran"].append("cargo test --offline --test seeded_demo_tmp (unmodified sources): rc=%d" % rc)
     rc, out = sh(["git", "apply", os.path.abspath(patch)], cwd=wt)
@@ -67,6 +69,10 @@ def main():
     compiled = "error: could not compile" not in out and "error[" not in out
     others_ok = compiled and all(f == 0 for t, (p, f) in tg.items() if "seeded_demo_tmp" not in t)
     demo_fails = any(f > 0 for t, (p, f) in tg.items() if "seeded_demo_tmp" in t)
+    if DEMO_FLAGS:
+        rc2, out2 = sh(["cargo", "test", "--offline", "--test", "seeded_demo_tmp"] + DEMO_FLAGS, cwd=wt)
+        demo_fails = rc2 != 0 and "test result: FAILED" in out2
+        meta["ran"].append("cargo test --offline --test seeded_demo_tmp %s (patched): rc=%d" % (" ".join(DEMO_FLAGS), rc2))
     n_pass = sum(p for t, (p, f) in tg.items() if "seeded_demo_tmp" not in t)
     meta["compiles_with_patch"] = compiled
     meta["existing_suite_passes_with_patch"] = others_ok
